@@ -1345,3 +1345,34 @@ Example ex_rr_differing_sets :
   map enc_sel (fst (get_seq RoundRobin ex_hhd 0 0 (map Nat.even (seq 0 12)))) =
     [0; 0; 1; 1; 0; 2; 1; 0; 0; 1; 1; 2].
 Proof. vm_compute. reflexivity. Qed.
+
+(* ================= the Random strategy (crate feature random) ================= *)
+(* the Random strategy (any draw): returns something whenever something qualifies, what it returns
+   qualifies (get_with_filter_sound), and it leaves the cursor alone *)
+Lemma random_some_when_some flt d rs c r :
+  implies_usable flt -> In r rs -> flt (st r) = true ->
+  exists i r', get_with_filter flt (Random d) rs c = (Some i, c) /\
+               nth_error rs i = Some r' /\ flt (st r') = true.
+Proof.
+  intros Hi Hin Hf.
+  pose proof (available_nonempty flt rs r Hin Hf) as Hne.
+  pose proof (statuses_usable flt rs Hi) as Hus.
+  assert (E : exists i, get_with_filter flt (Random d) rs c = (Some i, c)).
+  { unfold get_with_filter. destruct (available flt rs) as [|p av] eqn:Ea; [congruence|].
+    unfold select. cbn [map]. change (snd p :: map snd av) with (map snd (p :: av)).
+    rewrite (rr_usable_all (map snd (p :: av)) Hus). rewrite map_length, seq_length.
+    set (n := length (p :: av)). assert (Hn : (0 < n)%nat) by (unfold n; cbn; lia).
+    destruct (seq 0 n) as [|y l] eqn:Es.
+    { apply (f_equal (@length nat)) in Es. rewrite seq_length in Es. cbn in Es. lia. }
+    rewrite <- Es. rewrite seq_nth by (apply Nat.mod_upper_bound; lia). cbn [plus].
+    destruct (nth_error (p :: av) (d mod n)) as [q|] eqn:En.
+    - exists (fst q). reflexivity.
+    - apply nth_error_None in En. pose proof (Nat.mod_upper_bound d n ltac:(lia)). fold n in En. lia. }
+  destruct E as [i E]. destruct (get_with_filter_sound _ _ _ _ _ _ E) as (r' & Hr & Hfr).
+  exists i, r'. repeat split; assumption.
+Qed.
+
+Example ex_random :
+  map (fun d => enc_sel (fst (get_usable (Random d) ex_rs 9))) [0; 1; 2; 3; 7]%nat = [0; 2; 3; 0; 2] /\
+  get_healthy (Random 5) [ {| st := Degraded; cf := 0; cs := 1 |} ] 9 = (None, 9).
+Proof. vm_compute. split; reflexivity. Qed.
